@@ -113,9 +113,9 @@ func main() {
 		groups[c.Cap] = []Case{c}
 		caps = []int{c.Cap}
 	} else {
-		caps = []int{1, 2, 3, 8, 128}
+		caps = []int{1, 2, 3, 8, 64, 128}
 		if a.Tier == "thorough" {
-			caps = append(caps, 4, 5, 16, 17, 64, 127, 256, 511, 512)
+			caps = append(caps, 4, 5, 16, 17, 127, 256, 511, 512)
 		}
 		per := a.Pick(17, 60)
 		for _, cp := range caps {
@@ -129,7 +129,7 @@ func main() {
 	// one child per buffer size, a few at a time, each under a watchdog
 	outs := make([]*ChildOut, len(caps))
 	frozen := make([]string, len(caps))
-	sem := make(chan struct{}, 5)
+	sem := make(chan struct{}, 6)
 	var wg sync.WaitGroup
 	budget := time.Duration(a.Pick(150, 500)) * time.Second
 	for i, cp := range caps {
